@@ -21,9 +21,9 @@ RULE = (
     "binding id, bus tag = bus NUL-padded to 4, dlc = number of canonical payload bytes, data = those "
     "bytes zero-padded to 8; Decode of that frame must return (binding name, value).  Probe frames "
     "with non-matching (id, bus): unknown id, same id on another bus, bus differing in the last "
-    "character, a proper prefix of the bus name - must be reported unknown.  Static and dynamic "
+    "character, a proper prefix of the bus name, the binding's id with bits 11..15 set (frame ids are 16 bits wide) - must be reported unknown.  Static and dynamic "
     "answers must agree.  One long-lived wrapper object of each kind serves all commands of a batch "
-    "(matching frames first, then the same id on other buses).  ASan+UBSan throughout (fixed-size bus/data arrays); on the thorough tier "
+    "(matching frames first, then the same id on other buses); a second CanDynamicSchema object built from an unrelated schema lives in the same process and is used first.  ASan+UBSan throughout (fixed-size bus/data arrays); on the thorough tier "
     "every 8th batch also runs a sample, unsanitized, under valgrind memcheck.  distinct = (binding "
     "shape signature, bus length, value class, probe kind)."
 )
@@ -39,6 +39,22 @@ def shards(tier):
 
 def bus_hex(bus):
     return (bus.encode() + b"\0" * 4)[:4].hex()
+
+
+DECOY_TEXT = 'version: "3"\nstruct Decoy { v @0: u8, }\nimpl can for Decoy { id: 1, bus: "dk", }\nstruct Other { w @0: u16, }\nimpl can for Other { id: 2047, bus: "dk", }\n'
+
+
+def decoy_reflection(run, b):
+    """Reflection binary of a small unrelated schema; the harness builds a second CanDynamicSchema from
+    it and uses that object first (two schema objects in one process)."""
+    path = os.path.join(b.dir, "decoy.bin")
+    try:
+        cpp.reflection_binary(CC.parse(DECOY_TEXT).unwrap(), path)
+    except Exception as e:
+        run.inconclusive_because("cannot produce the decoy reflection: %s: %s" % (type(e).__name__, e))
+        return None
+    run.count("second_schema_objects")
+    return path
 
 
 def check_batch(run, b, nrand, valgrind=False):
@@ -92,6 +108,11 @@ def check_batch(run, b, nrand, valgrind=False):
             probes.append(("bus is a proper prefix", fid, bus[:-1]))
         if len(bus) < 4 and (fid, bus + "x") not in used:
             probes.append(("bus has an extra character", fid, bus + "x"))
+        # identifiers are 16 bits wide in frame_t: the binding's id with any of the bits 11..15 set is
+        # another identifier
+        for hb in r.sample([0x800, 0x1000, 0x2000, 0x4000, 0x8000, 0xF800], 2):
+            if all((fid | hb) != i for _, i, _ in b.can_bindings):
+                probes.append(("the binding's id with high bits set (id | 0x%X)" % hb, fid | hb, bus))
         for what, pid, pbus in probes:
             frame = "%d %s %d %s" % (pid, bus_hex(pbus), 8, "00" * 8)
             for op in ("CSD", "CDD"):
@@ -112,7 +133,7 @@ def check_batch(run, b, nrand, valgrind=False):
                 return
             if vrc is None:
                 run.inconclusive_because("valgrind timed out")
-    outputs, crashes = cpp.run(b.binary, lines, b.dir, reflection=b.refl)
+    outputs, crashes = cpp.run(b.binary, lines, b.dir, reflection=b.refl, other_reflection=decoy_reflection(run, b))
     if PP.report_crashes(run, crashes, lines, b.case, "CAN wrappers"):
         return
     sigs = {n: shapes.shape_sig(sch, n) for n in sch.structs}
